@@ -81,6 +81,15 @@ Theorem C18_angle_interval_intersects_sound : forall i j : @AngleInterval RNum,
   exists a, @AngleInterval_contains RNum i a = true /\ @AngleInterval_contains RNum j a = true.
 Proof. exact intersects_sound. Qed.
 Print Assumptions C18_angle_interval_intersects_sound.
+(* intersects is complete for arcs that share an angle exactly: some t, u inside the two extents name the same direction *)
+Theorem C18_angle_interval_intersects_complete : forall (i j : @AngleInterval RNum) (t u : R),
+  0 <= AngleInterval_start i < 2 * PI -> 0 <= AngleInterval_angle i <= 2 * PI ->
+  0 <= AngleInterval_start j < 2 * PI -> 0 <= AngleInterval_angle j <= 2 * PI ->
+  0 <= t <= AngleInterval_angle i -> 0 <= u <= AngleInterval_angle j ->
+  (exists k : Z, AngleInterval_start j + u = AngleInterval_start i + t + 2 * PI * IZR k) ->
+  @AngleInterval_intersects RNum i j = true.
+Proof. exact intersects_complete. Qed.
+Print Assumptions C18_angle_interval_intersects_complete.
 
 (* scalar intervals, over the reals *)
 Theorem C18_interval_new_ordered : forall a b : R,
